@@ -27,6 +27,8 @@ const (
 	M3CloseDrained
 	M3CloseDonech
 	UDPFlushed
+	CtrBeforeAdd
+	M3CloseSpin
 	NumPoints
 )
 
@@ -55,4 +57,6 @@ var Names = [...]string{
 	M3CloseDrained:        "M3CloseDrained",
 	M3CloseDonech:         "M3CloseDonech",
 	UDPFlushed:            "UDPFlushed",
+	CtrBeforeAdd:          "CtrBeforeAdd",
+	M3CloseSpin:           "M3CloseSpin",
 }
